@@ -3,199 +3,15 @@ import Lean.Elab.Tactic
 /-
   C04, call-site independence through arbitrary nested calls: definitions and data lemmas.
 
-  * `wf e`        : the expression is one the parser can produce as far as names go: no nested
-                    `output`, and no identifier / record shorthand spelled like a built-in
-                    function (the parser turns those spellings into `.builtin`, never `.ident`;
-                    `captureScope` relies on it: it does not capture names with `isBuiltinIdent`).
   * `ClosedV N v` : every function value inside `v` (also inside captured scopes, lists, records)
                     is closed after capture w.r.t. the display names `N`: every free name of its
-                    body is a parameter, captured, its own display name, or `inputs`; its body is `wf`.
+                    body is a parameter, captured, its own display name, or `inputs`; its body has no nested
+                    `output` (`noOutput`: the grammar only produces `output` as a whole statement).
   * `NamesLe`     : display names only grow (a cell is named once).
   * data lemmas   : every value operation of the evaluator and every callback-free built-in keeps
                     `ClosedV` (they only rearrange the function values they are given).
 -/
 namespace Blots
-
-/-! ### expressions whose identifiers are not spelled like built-ins -/
-
-mutual
-def wf : Expr → Bool
-  | .output _ => false
-  | .ident n => !isBuiltinIdent n
-  | .call f args => wf f && wfList args
-  | .bin _ l r => wf l && wf r
-  | .lambda _ body => wf body
-  | .assign _ v => wf v
-  | .un _ e => wf e
-  | .fact e => wf e
-  | .spread e => wf e
-  | .access e i => wf e && wf i
-  | .dot e _ => wf e
-  | .cond c a b => wf c && wf a && wf b
-  | .list items => wfItems items
-  | .record es => wfEntries es
-  | .doBlock stmts ret => wfItems stmts && wfItem ret
-  | _ => true
-def wfList : List Expr → Bool
-  | [] => true
-  | e :: es => wf e && wfList es
-def wfItem : Item → Bool
-  | .mk _ e _ => wf e
-def wfItems : List Item → Bool
-  | [] => true
-  | i :: is => wfItem i && wfItems is
-def wfEntry : Entry → Bool
-  | .mk _ k v _ => wfKey k && wf v
-def wfEntries : List Entry → Bool
-  | [] => true
-  | e :: es => wfEntry e && wfEntries es
-def wfKey : Key → Bool
-  | .dyn e => wf e
-  | .spread e => wf e
-  | .short n => !isBuiltinIdent n
-  | .static _ => true
-end
-
-mutual
-theorem wf_noOutput : ∀ (e : Expr), wf e = true → noOutput e = true
-  | .num _, _ | .str _, _ | .bool _, _ | .null, _ | .ident _, _ | .inref _, _ | .builtin _, _ => by
-    simp [noOutput]
-  | .output _, h => by simp [wf] at h
-  | .call f args, h => by
-    simp only [wf, Bool.and_eq_true] at h
-    simp [noOutput, wf_noOutput f h.1, wfList_noOutput args h.2]
-  | .bin _ l r, h => by
-    simp only [wf, Bool.and_eq_true] at h
-    simp [noOutput, wf_noOutput l h.1, wf_noOutput r h.2]
-  | .lambda _ body, h => by simp only [wf] at h; simp [noOutput, wf_noOutput body h]
-  | .assign _ v, h => by simp only [wf] at h; simp [noOutput, wf_noOutput v h]
-  | .un _ e, h => by simp only [wf] at h; simp [noOutput, wf_noOutput e h]
-  | .fact e, h => by simp only [wf] at h; simp [noOutput, wf_noOutput e h]
-  | .spread e, h => by simp only [wf] at h; simp [noOutput, wf_noOutput e h]
-  | .access e i, h => by
-    simp only [wf, Bool.and_eq_true] at h
-    simp [noOutput, wf_noOutput e h.1, wf_noOutput i h.2]
-  | .dot e _, h => by simp only [wf] at h; simp [noOutput, wf_noOutput e h]
-  | .cond c a b, h => by
-    simp only [wf, Bool.and_eq_true] at h
-    simp [noOutput, wf_noOutput c h.1.1, wf_noOutput a h.1.2, wf_noOutput b h.2]
-  | .list items, h => by simp only [wf] at h; simp [noOutput, wfItems_noOutput items h]
-  | .record es, h => by simp only [wf] at h; simp [noOutput, wfEntries_noOutput es h]
-  | .doBlock stmts (.mk _ re _), h => by
-    simp only [wf, wfItem, Bool.and_eq_true] at h
-    simp [noOutput, noOutputItem, wfItems_noOutput stmts h.1, wf_noOutput re h.2]
-theorem wfList_noOutput : ∀ (es : List Expr), wfList es = true → noOutputList es = true
-  | [], _ => rfl
-  | e :: es, h => by
-    simp only [wfList, Bool.and_eq_true] at h
-    simp [noOutputList, wf_noOutput e h.1, wfList_noOutput es h.2]
-theorem wfItems_noOutput : ∀ (is : List Item), wfItems is = true → noOutputItems is = true
-  | [], _ => rfl
-  | .mk _ e _ :: is, h => by
-    simp only [wfItems, wfItem, Bool.and_eq_true] at h
-    simp [noOutputItems, noOutputItem, wf_noOutput e h.1, wfItems_noOutput is h.2]
-theorem wfEntries_noOutput : ∀ (es : List Entry), wfEntries es = true → noOutputEntries es = true
-  | [], _ => rfl
-  | .mk _ k v _ :: es, h => by
-    simp only [wfEntries, wfEntry, Bool.and_eq_true] at h
-    have hk : noOutputKey k = true := by
-      cases k with
-      | static _ => rfl
-      | short _ => rfl
-      | dyn ke => simp only [wfKey] at h; simp [noOutputKey, wf_noOutput ke h.1.1]
-      | spread se => simp only [wfKey] at h; simp [noOutputKey, wf_noOutput se h.1.1]
-    simp [noOutputEntries, noOutputEntry, hk, wf_noOutput v h.1.2, wfEntries_noOutput es h.2]
-end
-
-mutual
-/-- a free name of a `wf` expression is not spelled like a built-in -/
-theorem wf_free : ∀ (e : Expr) (x : String), wf e = true → FreeIn x e → isBuiltinIdent x = false
-  | .num _, _, _, h | .str _, _, _, h | .bool _, _, _, h | .null, _, _, h | .inref _, _, _, h
-  | .builtin _, _, _, h => by cases h
-  | .ident n, x, hw, h => by
-    obtain ⟨rfl, _⟩ := freeIn_ident.mp h
-    simpa [wf] using hw
-  | .output _, _, hw, _ => by simp [wf] at hw
-  | .call f args, x, hw, h => by
-    simp only [wf, Bool.and_eq_true] at hw
-    rcases freeIn_call.mp h with h | h
-    · exact wf_free f x hw.1 h
-    · exact wfList_free args x hw.2 h
-  | .bin _ l r, x, hw, h => by
-    simp only [wf, Bool.and_eq_true] at hw
-    rcases freeIn_bin.mp h with h | h
-    · exact wf_free l x hw.1 h
-    · exact wf_free r x hw.2 h
-  | .lambda _ body, x, hw, h => by
-    simp only [wf] at hw; exact wf_free body x hw (freeIn_lambda.mp h).1
-  | .assign _ v, x, hw, h => by simp only [wf] at hw; exact wf_free v x hw (freeIn_assign.mp h)
-  | .un _ e, x, hw, h => by simp only [wf] at hw; exact wf_free e x hw (freeIn_un.mp h)
-  | .fact e, x, hw, h => by simp only [wf] at hw; exact wf_free e x hw (freeIn_fact.mp h)
-  | .spread e, x, hw, h => by simp only [wf] at hw; exact wf_free e x hw (freeIn_spread.mp h)
-  | .access e i, x, hw, h => by
-    simp only [wf, Bool.and_eq_true] at hw
-    rcases freeIn_access.mp h with h | h
-    · exact wf_free e x hw.1 h
-    · exact wf_free i x hw.2 h
-  | .dot e _, x, hw, h => by simp only [wf] at hw; exact wf_free e x hw (freeIn_dot.mp h)
-  | .cond c a b, x, hw, h => by
-    simp only [wf, Bool.and_eq_true] at hw
-    rcases freeIn_cond.mp h with h | h | h
-    · exact wf_free c x hw.1.1 h
-    · exact wf_free a x hw.1.2 h
-    · exact wf_free b x hw.2 h
-  | .list items, x, hw, h => by simp only [wf] at hw; exact wfItems_free items x hw (freeIn_list.mp h)
-  | .record es, x, hw, h => by simp only [wf] at hw; exact wfEntries_free es x hw (freeIn_record.mp h)
-  | .doBlock stmts (.mk rl re rt), x, hw, h => by
-    simp only [wf, wfItem, Bool.and_eq_true] at hw
-    exact wfDo_free stmts rl re rt x hw.1 (fun hr => wf_free re x hw.2 hr) (freeIn_doBlock.mp h)
-theorem wfList_free : ∀ (es : List Expr) (x : String), wfList es = true → FreeInList x es →
-    isBuiltinIdent x = false
-  | [], _, _, h => by cases h
-  | e :: es, x, hw, h => by
-    simp only [wfList, Bool.and_eq_true] at hw
-    rcases freeInList_cons.mp h with h | h
-    · exact wf_free e x hw.1 h
-    · exact wfList_free es x hw.2 h
-theorem wfItems_free : ∀ (is : List Item) (x : String), wfItems is = true → FreeInItems x is →
-    isBuiltinIdent x = false
-  | [], _, _, h => by cases h
-  | .mk _ e _ :: is, x, hw, h => by
-    simp only [wfItems, wfItem, Bool.and_eq_true] at hw
-    rcases freeInItems_cons.mp h with h | h
-    · exact wf_free e x hw.1 h
-    · exact wfItems_free is x hw.2 h
-theorem wfDo_free : ∀ (stmts : List Item) (rl : List String) (re : Expr) (rt : Option String) (x : String),
-    wfItems stmts = true → (FreeIn x re → isBuiltinIdent x = false) →
-    FreeInDo x stmts (.mk rl re rt) → isBuiltinIdent x = false
-  | [], _, _, _, _, _, hr, h => hr (freeInDo_nil.mp h)
-  | .mk _ e _ :: rest, rl, re, rt, x, hw, hr, h => by
-    simp only [wfItems, wfItem, Bool.and_eq_true] at hw
-    rcases freeInDo_cons.mp h with h | h
-    · exact wf_free e x hw.1 h
-    · exact wfDo_free rest rl re rt x hw.2 hr h.1
-theorem wfEntries_free : ∀ (es : List Entry) (x : String), wfEntries es = true → FreeInEntries x es →
-    isBuiltinIdent x = false
-  | [], _, _, h => by cases h
-  | .mk _ k v _ :: es, x, hw, h => by
-    simp only [wfEntries, wfEntry, Bool.and_eq_true] at hw
-    rcases freeInEntries_cons.mp h with h | h
-    · cases k with
-      | static _ => exact wf_free v x hw.1.2 (freeInEntry_static.mp h)
-      | dyn ke =>
-        simp only [wfKey] at hw
-        rcases freeInEntry_dyn.mp h with h | h
-        · exact wf_free ke x hw.1.1 h
-        · exact wf_free v x hw.1.2 h
-      | short n =>
-        have := freeInEntry_short.mp h
-        subst this
-        simpa [wfKey] using hw.1.1
-      | spread se =>
-        simp only [wfKey] at hw
-        exact wf_free se x hw.1.1 (freeInEntry_spread.mp h)
-    · exact wfEntries_free es x hw.2 h
-end
 
 /-! ### display names only grow -/
 
@@ -228,12 +44,13 @@ theorem setNameIfLambda_namesLe (s : ES) (n : String) (v : Value) :
 
 mutual
 /-- every function value inside the value is closed after capture (`ClosedFn`: each free name
-    of its body is a parameter, captured, its own display name, or `inputs`), has a `wf` body,
+    of its body is a parameter, captured, its own display name, or `inputs`), has a body
+    without nested `output`,
     and captured only values that are closed in the same sense -/
 def ClosedV (N : List (Nat × String)) : Value → Prop
   | .list xs => ClosedL N xs
   | .record r => ClosedR N r
-  | .lambda id ps body scope => ClosedFn N id ps body scope ∧ wf body = true ∧ ClosedR N scope
+  | .lambda id ps body scope => ClosedFn N id ps body scope ∧ noOutput body = true ∧ ClosedR N scope
   | .spread v => ClosedV N v
   | _ => True
 def ClosedL (N : List (Nat × String)) : List Value → Prop
@@ -261,7 +78,7 @@ variable {N : List (Nat × String)}
 @[simp] theorem closedV_spread (v : Value) : ClosedV N (.spread v) ↔ ClosedV N v := by simp [ClosedV]
 theorem closedV_lambda (id : Nat) (ps : List LArg) (body : Expr) (scope : List (String × Value)) :
     ClosedV N (.lambda id ps body scope) ↔
-      ClosedFn N id ps body scope ∧ wf body = true ∧ ClosedR N scope := by simp [ClosedV]
+      ClosedFn N id ps body scope ∧ noOutput body = true ∧ ClosedR N scope := by simp [ClosedV]
 @[simp] theorem closedL_nil : ClosedL N [] := by simp [ClosedL]
 @[simp] theorem closedR_nil : ClosedR N [] := by simp [ClosedR]
 @[simp] theorem closedE_nil : ClosedE N [] := by simp [ClosedE]
@@ -420,9 +237,7 @@ theorem closedR_captureScope {E : List Frame} (he : ClosedE N E) (vars : List St
     unfold captureStep
     split
     · rename_i v hv
-      split
-      · exact h
-      · exact closedR_insertAL (closed_envGet he hv) h
+      exact closedR_insertAL (closed_envGet he hv) h
     · exact h
 
 theorem closedL_spreadValues {v : Value} (hv : ClosedV N v) : ClosedL N (spreadValues v) := by
@@ -1120,5 +935,12 @@ theorem fok_callEnv (names : List (Nat × String)) (id : Nat) (ps : List LArg) (
     | some v => exact Or.inr (hscope (by rw [hs]; rfl))
     | none => exact Or.inr (htop (Or.inr ⟨h, hs⟩))
   · exact Or.inl h
+
+/-- `ClosedFn` is checkable: the free names are the finite list `freeVars [] body` -/
+theorem closedFn_of_freeVars {names : List (Nat × String)} {id : Nat} {ps : List LArg} {body : Expr} {scope : Frame}
+    (hno : noOutput body = true)
+    (hall : ∀ x ∈ freeVars [] body, x ∈ ps.map LArg.name ∨ (lookupAL x scope).isSome ∨ nameOf names id = some x ∨
+      x = "inputs") : ClosedFn names id ps body scope :=
+  fun x hx => hall x ((freeVars_iff body [] x hno).mpr ⟨hx, by simp⟩)
 
 end Blots
